@@ -55,6 +55,11 @@ CHECKS = {
         technique='CrossHair (z3) on the real api.converted_call: symbolic argument values per (callable kind, call shape); solver-exhausted case analysis over option bits x ctx status and over fault stage x fault class',
         text='Transparency: obs(converted_call(f,args,kwargs)) == obs(f(*args,**kwargs)) for 29 callable kinds x call shapes, all int values. Policy: conversion attempted iff the documented decision table says so, for all 8 option values x 3 context statuses per kind. Fall-back: for each of 20 pipeline stages x 7 exception classes the call still returns the direct result, the target runs once, exactly one warning is logged, the failure is remembered and the second call enters no stage.',
         note='Decision table transcribed from functions.md. Faults are exceptions raised by patched module-level stage entry points. wrapt/TF plugins outside.'),
+    'C10': dict(
+        level='exploration', engine='xh-diff', design='DESIGN.md §2 C10',
+        technique='CrossHair (z3) solver-exhausted enumeration of request histories against the real transpiler cache (real locking, parsing, factory creation, instantiate; counting stub for transform_ast)',
+        text='Every history of H<=3 (thorough 4) requests (function, options) over a pool with shared code objects / same-named definitions / re-created functions x 4 option sets: each returned function equals a cache-less fresh conversion of exactly that function object under exactly those options (behaviour, defaults/globals/cells identity, generated source), and the source transformation ran at most once per (code, options).',
+        note='STUB: transform_ast is a counting stub embedding (name, options) into the output. Thread schedules: E3 model (see DESIGN) - until it is part of the run the thread-safety clause is not claimed.'),
 }
 
 NOT_APPLICABLE = {
